@@ -146,6 +146,30 @@ def _oracle(c, rng):
             nxt = K[:, :pth] @ Th[k] + K[:, pth:] @ Up[k]
             if not np.allclose(nxt, Th[k + 1], rtol=1e-9, atol=1e-12):
                 return f'episode {l}: lifted trajectory violates theta[k+1] = A theta[k] + B upsilon[k] at k={k}', tags
+    # without re-lifting, unlifted output: IC verbatim, inputs passed through, one row per input sample, and every
+    # later state is the retraction of the lifted state of its time step
+    try:
+        Xn = kp.predict_trajectory(X0, U, relift_state=False, return_input=True, episode_feature=c['call'])
+    except Exception as ex:
+        return f'predict_trajectory(relift_state=False) raised {type(ex).__name__}: {ex}', tags
+    eps_n = st.episodes(Xn, e)
+    eps_L = st.episodes(L, e)
+    for l, Xe in eps_in.items():
+        if l not in eps_n:
+            return f'episode {l} missing from the prediction without re-lifting', tags
+        Pn = eps_n[l]
+        if Pn.shape[0] != Xe.shape[0]:
+            return f'episode {l} (no re-lifting): {Xe.shape[0]} input samples, {Pn.shape[0]} predicted rows', tags
+        if not np.array_equal(Pn[:m, :nx], Xe[:m, :nx]):
+            return f'episode {l} (no re-lifting): initial conditions not reproduced verbatim', tags
+        if not np.array_equal(Pn[:, nx:], Xe[:, nx:]):
+            return f'episode {l} (no re-lifting): inputs not passed through unchanged', tags
+        Th = eps_L[l][:, :pth]
+        for j in range(1, Th.shape[0]):
+            xr = kp.retract_state(Th[[j], :], episode_feature=False)[-1]
+            if not np.allclose(xr, Pn[j + m - 1, :nx], rtol=1e-9, atol=1e-12):
+                return (f'episode {l} (no re-lifting): predicted state {j + m - 1} is not the retraction of the lifted '
+                        f'state of its time step'), tags
     return None, None
 
 
